@@ -769,6 +769,9 @@ func (x *Exec) applyContract(p *Path, ct *Contract, vars map[string]SV, results 
 	}
 	eenv := &SpecEnv{x: x, vars: env.vars, H: post, H0: pre, HN: pre}
 	restoreTrace := ct.Flags["callbacks"] && !x.cur.ct.Flags["callbacks"] && !ct.Flags["pure"]
+	if ct.Flags["callbacks"] && !restoreTrace {
+		p.trTouched = true
+	}
 	if results != nil && results.Len() > 0 {
 		var rs []SV
 		for i := 0; i < results.Len(); i++ {
@@ -845,6 +848,7 @@ func (x *Exec) callCallback(p *Path, fv SV, args []SV, res ssa.Value, in ssa.Ins
 		}
 	}
 	n := fmt.Sprintf("(TrLen %s)", p.H)
+	p.trTouched = true
 	x.updMulti(p, map[string]string{
 		"TrA":   fmt.Sprintf("(store (TrA %s) %s %s)", p.H, n, a0),
 		"TrB":   fmt.Sprintf("(store (TrB %s) %s %s)", p.H, n, a1),
